@@ -288,6 +288,43 @@ def check(ctx):
     ok = any(isinstance(n, ast.Assign) and unparse(n.targets[0]) == "kwargs['env']" for n in walk_local(pe))
     ctx.ob("R5", f"{SP}:SubprocSpec.prep_env_subproc", "the mapping is handed to Popen as env=", ok, key="prep_env|not-passed")
 
+    # per-command `$X=1 cmd` overlays: the parser hands `envs` aligned with `cmds` (connector strings included,
+    # with None placeholders); the overlay given to a stage must be looked up at the stage's position in `cmds`
+    c2s = sp.func("cmds_to_specs")
+    cdefs = df.all_defs(c2s)
+    cmds_p = param_name(c2s, 0, skip_self=False)
+    if not any(a_.arg == "envs" for a_ in c2s.args.args + c2s.args.kwonlyargs):
+        raise AnchorMissing(f"{SP}:cmds_to_specs: parameter envs")
+    builds = [c for c in calls_in(c2s) if (call_name(c) or "").endswith("SubprocSpec.build")]
+    if not builds:
+        raise AnchorMissing(f"{SP}:cmds_to_specs: SubprocSpec.build call")
+    for c in builds:
+        cmd_e = c.args[0] if c.args else None
+        env_e = kwarg(c, "env")
+        ok, why = False, "the stage's command is not a loop variable over the command list"
+        loop = None
+        if isinstance(cmd_e, ast.Name):
+            ds = cdefs.get(cmd_e.id, [])
+            if len(ds) == 1 and isinstance(ds[0].stmt, ast.For):
+                loop = ds[0].stmt
+        if loop is not None and env_e is not None:
+            it, tgt = loop.iter, loop.target
+            idx = None
+            if isinstance(it, ast.Call) and call_name(it) == "enumerate" and it.args and unparse(it.args[0]) == cmds_p and isinstance(tgt, ast.Tuple) and isinstance(tgt.elts[0], ast.Name):
+                idx = tgt.elts[0].id
+            # the overlay expression, through one local
+            ev = env_e
+            if isinstance(ev, ast.Name) and len(cdefs.get(ev.id, [])) == 1 and cdefs[ev.id][0].kind == "assign":
+                ev = cdefs[ev.id][0].value
+            subs = [x for x in ast.walk(ev) if isinstance(x, ast.Subscript) and unparse(x.value) == "envs"]
+            if idx is not None and subs and all(isinstance(x.slice, ast.Name) and x.slice.id == idx for x in subs) and not [d for d in cdefs.get(idx, []) if d.stmt is not loop and lexically_inside(d.stmt, loop)] and lexically_inside(c, loop):
+                ok, why = True, None
+            elif idx is None and isinstance(it, ast.Call) and call_name(it) == "zip" and [unparse(a_) for a_ in it.args[:2]] == [cmds_p, "envs"] and isinstance(env_e, ast.Name) and any(isinstance(x, ast.Name) and x.id == env_e.id for x in ast.walk(tgt)):
+                ok, why = True, None
+            else:
+                why = f"overlay `{short(ev, 50)}` is not indexed by the position of the command in `{cmds_p}`" + (f" (`{idx}`)" if idx else " (no enumerate index)")
+        ctx.ob("R5", f"{SP}:cmds_to_specs", f"`{short(c, 60)}`: the per-command overlay is taken from `envs` at the command's own position in the command list", ok, key="cmds_to_specs|overlay-misaligned", where=loc(c), detail=why)
+
 
 META = {
     "technique": "static analysis: who-may-write the variable store + CFG must-pass-through to the memo invalidation, alias-escape rule for the memoised mapping, contradiction rule over the Var/ENSURERS registry, guard dominance in detype",
